@@ -1,6 +1,7 @@
 import Frp.Model.Wire
 import Frp.Model.WireReload
 import Frp.Model.WireConfig
+import Frp.Model.WireHist
 import Frp.Gen.AuthFacts
 /-
   C05 — Configured encryption really protects the wire; TLS identity rules are enforced.   (PARTIAL)
@@ -1033,6 +1034,147 @@ theorem writtenObsOk_model (tls : Bool) (user : Str) (w : Base) :
 
 end Written
 
+/-! ## I. HISTORIES of the TLS files on disk (both sides) and the websocket upgrade request
+
+  frps: the tls.Config of every handshake is the one `NewService` built (no callback, no later write): whatever happens to
+  certFile / keyFile / trustedCaFile while frps runs, and whenever the handshake comes, the trusted-CA and force clauses hold.
+  frpc: every login attempt builds its tls.Config from the files as they are THEN; an attempt with TLS switched on is a
+  TLS connection or no connection at all, never a plain one — whatever the earlier attempts met. -/
+
+section Hist
+open WireHist
+
+theorem hist_run_keeps_running (evs : List Ev) : ∀ (s : St), (run s evs).run = s.run := by
+  induction evs with
+  | nil => intro s; rfl
+  | cons e es ih =>
+    intro s
+    have : (run s (e :: es)) = run (step s e) es := rfl
+    rw [this, ih]
+    cases e <;> rfl
+
+/-- the config of a handshake does not depend on what happened on disk or on the time -/
+theorem hist_effective_tls_const (l : Listener) (s : St) (evs : List Ev) :
+    effectiveTls l (run s evs) = effectiveTls l s := by
+  simp [effectiveTls, hist_run_keeps_running]
+
+/-- **every handshake on every public listener at every point of every history** runs with
+    RequireAndVerifyClientCert and the CA pool when a trusted CA is configured -/
+theorem hist_every_handshake_requires_cert (l : Listener) (s : St) (evs : List Ev) (hl : l.isPublic = true)
+    (hca : s.run.cfg.trustedCA = true) :
+    ∃ t, effectiveTls l (run s evs) = some t ∧ t.clientAuth = .requireAndVerify ∧ t.hasClientCAs = true := by
+  rw [hist_effective_tls_const]
+  cases l <;> simp_all [effectiveTls, listenerTls, Listener.gate, Listener.isPublic, quicServerTls, ServerTls.clone,
+    serverTls, serverTlsOf]
+
+/-- **trusted CA, for every history**: after any sequence of file replacements and waits, a peer without a
+    certificate of the CA frps loaded gets no session on any control transport -/
+theorem hist_ca_peer_without_acceptable_cert_uninterpreted (s : St) (evs : List Ev) (c : ClientCfg) (cli : Option Nat)
+    (hca : s.run.cfg.trustedCA = true) (hbad : c.certGiven = false ∨ cli ≠ some s.run.clientCA) :
+    probeUp (run s evs) c cli = false := by
+  unfold probeUp
+  rw [hist_run_keeps_running]
+  cases h : sessionUpOn s.run.cfg c (pkiOf s.run cli)
+  · rfl
+  · have := ca_session_requires_cert_every_protocol s.run.cfg c (pkiOf s.run cli) hca h
+    rcases hbad with hb | hb
+    · rw [this.2.1] at hb; exact absurd hb (by decide)
+    · exact absurd this.2.2 hb
+
+/-- **force, for every history**: a peer that does not dial TLS gets no session from a forcing frps -/
+theorem hist_force_peer_without_tls_uninterpreted (s : St) (evs : List Ev) (c : ClientCfg) (cli : Option Nat)
+    (hf : serverForce s.run.cfg = true) (hp : (clientDial c).tls = false) :
+    probeUp (run s evs) c cli = false := by
+  unfold probeUp
+  rw [hist_run_keeps_running]
+  cases h : sessionUpOn s.run.cfg c (pkiOf s.run cli)
+  · rfl
+  · have := force_session_requires_tls_every_protocol s.run.cfg c (pkiOf s.run cli) hf h
+    rw [this] at hp; exact absurd hp (by decide)
+
+/-- executable predicate for one probe of a rig: an answer from frps only for a peer the rules admit -/
+def histObsOk (s : St) (c : ClientCfg) (cli : Option Nat) (interpreted : Bool) : Bool :=
+  !interpreted || probeUp s c cli
+
+theorem histObsOk_sound (s : St) (evs : List Ev) (c : ClientCfg) (cli : Option Nat)
+    (h : histObsOk (run s evs) c cli true = true) :
+    (s.run.cfg.trustedCA = true → c.tlsEnable = true ∧ c.certGiven = true ∧ cli = some s.run.clientCA) ∧
+    (serverForce s.run.cfg = true → (clientDial c).tls = true) := by
+  have hs : sessionUpOn s.run.cfg c (pkiOf s.run cli) = true := by
+    simpa [histObsOk, probeUp, hist_run_keeps_running] using h
+  exact ⟨fun hca => ca_session_requires_cert_every_protocol s.run.cfg c (pkiOf s.run cli) hca hs,
+         fun hf => force_session_requires_tls_every_protocol s.run.cfg c (pkiOf s.run cli) hf hs⟩
+
+/-- `NewService` keeps the configuration and loads the CA that is on disk at that moment -/
+theorem start_loads_disk (cfg : ServerCfg) (d : SrvDisk) (r : Running) (h : start cfg d = some r) :
+    r.cfg = cfg ∧ (cfg.trustedCA = true → d.caEmpty = false → d.ca = some r.clientCA) ∧
+      (cfg.certGiven = true → r.certIssuer = d.certIssuer ∧ d.certIssuer.isSome = true) := by
+  unfold start at h
+  cases hc : cfg.certGiven <;> cases ht : cfg.trustedCA <;> cases he : d.caEmpty <;>
+    cases hi : d.certIssuer <;> cases ha : d.ca <;> simp_all <;> (subst h; simp)
+
+/-- a construction site is sound iff a CA pool never comes without the demand for a verified certificate -/
+theorem site_sound_iff (x : Site) : x.sound = true ↔ (x.setsClientCAs = true → x.setsRequire = true) := by
+  cases x with | mk a b => cases a <;> cases b <;> simp [Site.sound]
+
+/-- **an attempt with TLS switched on never dials a plain connection**, whatever is on disk -/
+theorem attempt_never_plain (c : ClientCfg) (d : CliDisk) (h : c.tlsEnable = true) : attempt c d ≠ .plainConn := by
+  unfold attempt
+  simp only [h, Bool.true_or, if_true]
+  cases build c.certGiven c.trustedCA (effServerName c) d <;> simp
+
+/-- **… at every attempt of every retry history** -/
+theorem attempts_never_plain (c : ClientCfg) (ds : List CliDisk) (h : c.tlsEnable = true) :
+    ∀ a ∈ attempts c ds, a ≠ .plainConn := by
+  intro a ha
+  simp only [attempts, List.mem_map] at ha
+  obtain ⟨d, _, rfl⟩ := ha
+  exact attempt_never_plain c d h
+
+/-- an attempt does not depend on the attempts before it -/
+theorem attempt_memoryless (c : ClientCfg) (ds : List CliDisk) (d : CliDisk) :
+    (attempts c (ds ++ [d])).getLast? = some (attempt c d) := by
+  simp [attempts]
+
+/-- no connection is dialled exactly when a configured file cannot be loaded -/
+theorem attempt_noConn_iff (c : ClientCfg) (d : CliDisk) (h : c.tlsEnable = true) :
+    attempt c d = .noConn ↔ (c.certGiven = true ∧ d.pair ≠ .ok) ∨ (c.trustedCA = true ∧ d.ca = .gone) := by
+  unfold attempt build
+  cases hc : c.certGiven <;> cases ht : c.trustedCA <;> cases hp : d.pair <;> cases ha : d.ca <;> simp [h]
+
+/-- a verifying attempt against a readable but empty CA file is a TLS connection the client itself refuses -/
+theorem attempt_empty_ca_refuses (c : ClientCfg) (d : CliDisk) (h : c.tlsEnable = true) (hca : c.trustedCA = true)
+    (hp : c.certGiven = false ∨ d.pair = .ok) (he : d.ca = .empty) : attempt c d = .tlsConn false := by
+  unfold attempt build
+  rcases hp with hp | hp <;> simp [h, hca, hp, he, clientTlsOf]
+
+/-- executable predicate on the relay's own observation of one attempt: with TLS switched on no connection carried
+    client bytes outside a TLS record stream and the marker of the Login is not readable -/
+def loginObsOk (tls clear seen : Bool) : Bool := !tls || (!clear && !seen)
+
+theorem loginObsOk_model (c : ClientCfg) (ds : List CliDisk) (a : Attempt) (ha : a ∈ attempts c ds) :
+    loginObsOk c.tlsEnable (a == .plainConn) (a == .plainConn) = true := by
+  cases ht : c.tlsEnable
+  · simp [loginObsOk]
+  · have := attempts_never_plain c ds ht a ha
+    cases a <;> simp_all [loginObsOk]
+
+/-- the upgrade request of a websocket peer is not an input: the reply is the one of a raw peer -/
+theorem wsPeerReply_eq_rawReply (s : ServerCfg) (hdrs : List (Str × Str)) (b : Nat) :
+    wsPeerReply s hdrs b = rawReply s b := rfl
+
+theorem ws_headers_irrelevant (s : ServerCfg) (h h' : List (Str × Str)) (b : Nat) :
+    wsPeerReply s h b = wsPeerReply s h' b := rfl
+
+/-- **force, websocket peers**: whatever request headers a peer without TLS sends with its upgrade, a forcing frps
+    interprets nothing of what follows -/
+theorem ws_forced_peer_uninterpreted (s : ServerCfg) (hdrs : List (Str × Str)) (b : Nat)
+    (h : serverForce s = true) : wsPeerReply s hdrs b = none := by
+  rw [wsPeerReply_eq_rawReply]
+  exact (forced_plain_peer_uninterpreted s b h).2
+
+end Hist
+
 /-! ## F. facts regenerated from the source on every run (translate/gen_authfacts.go → Frp/Gen/AuthFacts.lean)
 
   These are checked against what the Go files say NOW; a change of the code changes the generated
@@ -1329,6 +1471,31 @@ theorem gen_connector_tls_required :
   refine ⟨by decide +kernel, by decide +kernel, clientTls_isSome_iff, fun c hp => ?_⟩
   exact ⟨wss_tls_config_ignores_enable c hp, by simp [clientHooks, hp]⟩
 
+/-- the policy fields a function writes, read as a `WireHist.Site` -/
+def siteOf (fs : List (String × String)) : WireHist.Site :=
+  { setsClientCAs := fs.any fun p => p.1 == "ClientCAs"
+  , setsRequire := fs.contains ("ClientAuth", "tls.RequireAndVerifyClientCert") }
+
+/-- census of pkg/transport, pkg/util/net, server/**, client/**: the only functions that build a `tls.Config` or write one
+    of its policy fields are `NewServerTLSConfig` and `NewClientTLSConfig`; every site that sets `ClientCAs` sets
+    `ClientAuth = RequireAndVerifyClientCert` beside it; NO crypto/tls callback (GetConfigForClient, GetCertificate,
+    VerifyPeerCertificate, …) is installed anywhere, so no handshake runs with a config built elsewhere; inside `NewService`
+    the server's config is only stored in `Service.tlsConfig`, cloned, given `NextProtos` and handed to `quic.ListenAddr`;
+    pkg/transport keeps no package-level state between calls (every call of `NewClientTLSConfig` reads the files) —
+    `WireHist.effectiveTls`, `WireHist.attempt` -/
+theorem gen_tls_census :
+    tlsSites =
+      [ ("pkg/transport/tls.go NewServerTLSConfig", [("ClientAuth", "tls.RequireAndVerifyClientCert"), ("ClientCAs", "pool")])
+      , ("pkg/transport/tls.go NewClientTLSConfig",
+          [("RootCAs", "pool"), ("InsecureSkipVerify", "false"), ("InsecureSkipVerify", "true")]) ] ∧
+    (tlsSites.all fun x => (siteOf x.2).sound) = true ∧
+    tlsCallbacks = [] ∧
+    serviceTLSUses =
+      ["tlsConfig: defined", "tlsConfig: field tlsConfig", "quicTLSCfg: defined", "tlsConfig: call .Clone()",
+       "quicTLSCfg: write .NextProtos", "quicTLSCfg: argument of quic.ListenAddr"] ∧
+    transportPkgVars = [] := by
+  refine ⟨by decide +kernel, by decide +kernel, by decide +kernel, by decide +kernel, by decide +kernel⟩
+
 end Generated
 
 /-! ## Non-vacuity -/
@@ -1440,6 +1607,33 @@ example :
       = (Str.ofString "u.web", true, true, false) := by decide +kernel
 -- the predicate is not trivially true: a loader that drops the flag fails it
 example : writtenKeptOk true false false false = false := rfl
+
+
+-- histories: a frps with a trusted CA, its certificate renewed and its CA file replaced on disk, six seconds later: a
+-- peer with the certificate of the CA loaded at start gets a session, peers without / with another one do not
+example :
+    let cfg : ServerCfg := { force := false, trustedCA := true, certGiven := true }
+    let d0 : WireHist.SrvDisk := { certIssuer := some 1, ca := some 1 }
+    let c : ClientCfg := { tlsEnable := true, disableCustomFirstByte := true, trustedCA := false, certGiven := true
+                         , serverName := [], serverAddr := [49] }
+    (WireHist.start cfg d0).map (fun r =>
+      let s := WireHist.run { run := r, disk := d0 }
+        [.replace { d0 with certGen := 1 }, .replace { certIssuer := some 2, certGen := 2, ca := some 2 }, .wait 6000]
+      (WireHist.probeUp s c (some 1), WireHist.probeUp s c (some 2), WireHist.probeUp s { c with certGiven := false } none))
+      = some (true, false, false) := by decide
+example : WireHist.start { force := false, trustedCA := true, certGiven := true } { certIssuer := some 1, ca := none } = none := by
+  decide
+example : (siteOf [("ClientCAs", "r.base.ClientCAs")]).sound = false := by decide
+-- login attempts: CA file missing, then present — no connection, then a verified TLS connection; TLS off: plain
+example :
+    let c : ClientCfg := { tlsEnable := true, disableCustomFirstByte := true, trustedCA := true, certGiven := false
+                         , serverName := [], serverAddr := [49] }
+    (WireHist.attempts c [{ ca := .gone }, { ca := .gone }, { ca := .ok }, { ca := .empty }],
+     WireHist.attempt { c with tlsEnable := false } { ca := .gone })
+      = ([.noConn, .noConn, .tlsConn true, .tlsConn false], .plainConn) := by decide
+example : loginObsOk true true true = false := rfl
+example : WireHist.wsPeerReply { force := false, trustedCA := false, certGiven := false, tcpMux := false } [] 0x6f = some 0x31 := by
+  decide
 
 end C05
 end Frp
